@@ -49,6 +49,7 @@ type Instance struct {
 	RelaxedUF bool
 	Opaque    bool // structure-only float mode (implies the real-sorted encoding)
 	NoSubnormal bool
+	Stateless bool // every query on a fresh solver process fed with the path's script (z3's one-shot pipeline decides some mixed Real/BV goals its incremental core does not)
 	Concrete map[string]string // if set: run as a concrete interpreter with these inputs (translator validation)
 }
 
@@ -213,7 +214,7 @@ func (P *Program) runInstance(inst *Instance, sol *Solver) *InstanceResult {
 		}
 		sol.log = sol.log[:0]
 		sol.tacticOff = inst.Relaxed || inst.Opaque // the bit-vector tactic does not apply to real arithmetic
-		sol.stateless = false // (fresh-process solving per query was tried for real-arithmetic contexts: no gain on the registered checks)
+		sol.stateless = inst.Stateless
 		sol.Send("(push 1)")
 		status := P.runPath(e, fn)
 		sol.Send("(pop 1)")
